@@ -449,7 +449,8 @@ def _perm_edges(state):
 
 def _scale_edges(state):
     return [(nm, _map_notes(state, lambda n, k=k: (n[0], n[1], n[2] * k) + tuple(n[3:])))
-            for nm, k in (("x2", 2.0), ("x0.5", 0.5), ("x2^(7/12)", 2.0 ** (7 / 12.0)), ("x1.5", 1.5))]
+            for nm, k in (("x2", 2.0), ("x0.5", 0.5), ("x2^(7/12)", 2.0 ** (7 / 12.0)), ("x1.5", 1.5),
+                          ("x0.125", 0.125))]        # three octaves down: every pitch below 128 Hz (bass register)
 
 
 PRF_KEYS = ["Precision", "Recall", "F-measure"]
